@@ -194,9 +194,14 @@ func VerifC19_KShadow() {
 		"(defun car (a b) 1)\n(car %ARGS%)",
 		"(flet ((car (a b) 1)) (car %ARGS%))",
 		"(labels ((car (a b) 1)) (car %ARGS%))",
+		// a shadow in one binding form must not leak into a later, unrelated binding form
+		"(let ((car 1)) car)\n(let ((k 1)) (car %ARGS%))",
+		"(flet ((car (a b) 1)) (car 1 2))\n(flet ((other (a) a)) (car %ARGS%))",
+		"(defun f () (let* ((car 1)) car))\n(defun g () (labels ((h (x) (car %ARGS%))) (h 1)))\n(g)",
+		"(let ((k 1)) (car %ARGS%))\n(let ((car 1)) car)",
 	}
 	// which arity the final/inner (car ...) call reaches: the builtin (1) or the shadow (2)
-	reaches := []int{1, 1, 1, 2, 2, 2}
+	reaches := []int{1, 1, 1, 2, 2, 2, 1, 1, 1, 1}
 	fi := vndChoice("form", len(forms))
 	k := vndInt("k")
 	vAssume(k >= 0)
